@@ -102,11 +102,14 @@ L2Figures(ev) ==
   \A e \in {Ext(ev.ast, ev.ctx)} :
     (e.pk = ev.st.ms.pk_cost /\ e.ops = ev.st.ms.static_ops /\ SameData(e.sat, ev.st.ms.sat) /\ SameData(e.dis, ev.st.ms.dissat))
     \/ Report("INFO", "drift_l2_extdata", ev, 0, <<e.pk, e.ops, e.sat, e.dis>>)
+L2Weight(ev) ==
+  \A mw \in {DescMaxWeight(ev.wrap, ev.ast, ev.ctx, 0)} :
+    ev.st.max_weight = mw \/ Report("INFO", "drift_l2_max_weight", ev, 0, <<ev.wrap, ev.st.max_weight, mw>>)
 
 JudgeEvent(ev) ==
   IF ev.parse # "ok"
   THEN Report("INFO", "parse_" \o ev.parse, ev, 0, ev.msg)
-  ELSE L2Figures(ev) /\ \A j \in 1..Len(ev.res) : JudgeRes(ev, j) /\ L2Agrees(ev, j)
+  ELSE L2Figures(ev) /\ L2Weight(ev) /\ \A j \in 1..Len(ev.res) : JudgeRes(ev, j) /\ L2Agrees(ev, j)
 
 Inv == i > 0 => JudgeEvent(Rec[i])
 
